@@ -18,6 +18,12 @@ type Scenario struct {
 	Name      string
 	Program   []string // API calls issued in this order, interleaved with job steps in every way
 	Converter bool     // install the harness converter
+	Prebuilt  []int    // index files (stream counts, oldest first) present when the service starts
+	// Workers limits how many histories of this scenario run at the same time (0 = all cores).  The
+	// service names index files by the millisecond plus a process-wide counter that is not zero-padded:
+	// with ten or more files created in one millisecond by all the services running in this process,
+	// names stop sorting in creation order - which matters as soon as a scenario restarts the service
+	Workers int
 }
 
 type ExploreStats struct {
@@ -87,7 +93,7 @@ func run1(sc *Scenario, path []string, convBin string) (res result) {
 	if sc.Converter {
 		bin = convBin
 	}
-	w, err := NewWorld(bin)
+	w, err := NewWorldPrebuilt(bin, sc.Prebuilt)
 	if err != nil {
 		res.hardErr = err
 		return
@@ -108,7 +114,7 @@ func run1(sc *Scenario, path []string, convBin string) (res result) {
 			// the harness' scheduling (e.g. it acts on whatever a map iteration yields first).  What was
 			// executed is still a real execution: it is judged like any other (invariants, drain), the
 			// exploration behind it is given up and the run is reported as not exhaustive.
-			res.diverged = fmt.Sprintf("replay of [%s] diverged at step %d: event %q not enabled (enabled %v)", res.pathDesc, i, ev, en)
+			res.diverged = fmt.Sprintf("replay of [%s] diverged at step %d: event %q not enabled (enabled %v); what happened in this run: %v; applied notifications: %v", res.pathDesc, i, ev, en, w.Events, w.Applied)
 			res.divergedAt = i
 			break
 		}
@@ -248,11 +254,12 @@ func Explore(sc *Scenario, convBin string, maxStates int64, deadline time.Time, 
 	if r1.canon != r2.canon || r1.final != r2.final {
 		mc.Fatal("scenario %s: two runs of the empty history differ:\n%s\n---\n%s", sc.Name, r1.canon+r1.final, r2.canon+r2.final)
 	}
+	livelock := false
 	for depth := 0; len(frontier) != 0; depth++ {
 		var next []node
 		var stop int32
 		results := make([]result, len(frontier))
-		mc.ParFor(len(frontier), func(i int) {
+		parFor(sc.Workers, len(frontier), func(i int) {
 			if atomic.LoadInt32(&stop) != 0 {
 				return
 			}
@@ -261,7 +268,7 @@ func Explore(sc *Scenario, convBin string, maxStates int64, deadline time.Time, 
 				return
 			}
 			results[i] = run(sc, frontier[i].path, convBin)
-		}, nil)
+		})
 		if stop != 0 {
 			st.CapHit = fmt.Sprintf("deadline while expanding depth %d (%d histories)", depth, len(frontier))
 			break
@@ -289,7 +296,7 @@ func Explore(sc *Scenario, convBin string, maxStates int64, deadline time.Time, 
 		}
 		if len(extra) != 0 {
 			xr := make([]result, len(extra))
-			mc.ParFor(len(extra), func(i int) { xr[i] = run(sc, extra[i].path, convBin) }, nil)
+			parFor(sc.Workers, len(extra), func(i int) { xr[i] = run(sc, extra[i].path, convBin) })
 			frontier = append(frontier, extra...)
 			results = append(results, xr...)
 			st.ForcedPicks += int64(len(extra))
@@ -320,6 +327,11 @@ func Explore(sc *Scenario, convBin string, maxStates int64, deadline time.Time, 
 			st.DrainSteps += int64(r.drained)
 			for _, v := range r.viol {
 				report(frontier[i].path, v)
+				if v.Symptom == "c09.does-not-settle" || v.Symptom == "c09.job-never-completes" {
+					// a service that keeps running jobs for ever cannot be stopped: every further world of
+					// this scenario would leave another busy instance behind in this process
+					livelock = true
+				}
 			}
 			h := hashOf(r.canon)
 			mu.Lock()
@@ -370,6 +382,10 @@ func Explore(sc *Scenario, convBin string, maxStates int64, deadline time.Time, 
 		if depth > st.MaxDepth {
 			st.MaxDepth = depth
 		}
+		if livelock {
+			st.CapHit = fmt.Sprintf("the service did not settle in a state of depth %d: the scenario is not explored any deeper", depth)
+			break
+		}
 		if maxStates > 0 && st.States >= maxStates {
 			st.CapHit = fmt.Sprintf("state cap %d at depth %d", maxStates, depth)
 			break
@@ -396,4 +412,28 @@ func lessStrs(a, b []string) bool {
 		}
 	}
 	return len(a) < len(b)
+}
+
+// parFor runs f(0..n-1) on the given number of goroutines (0: one per core).
+func parFor(workers, n int, f func(i int)) {
+	if workers <= 0 {
+		mc.ParFor(n, f, nil)
+		return
+	}
+	var next int64 = -1
+	var wg sync.WaitGroup
+	for k := 0; k < workers && k < n; k++ {
+		wg.Add(1)
+		go func() {
+			defer wg.Done()
+			for {
+				i := int(atomic.AddInt64(&next, 1))
+				if i >= n {
+					return
+				}
+				f(i)
+			}
+		}()
+	}
+	wg.Wait()
 }
